@@ -164,6 +164,17 @@ def recheck_deeper(root, outdir, ids, fuel=9, timeout=600):
     with open(os.path.join(d, 'cases.txt'), 'w') as f:
         f.write('\n'.join(lines) + '\n')
     res, _, _ = run_checker(root, d, timeout)
+    # third stage for the few that are still rejected: wide bands need cells finer than the margin
+    still = [l for l in lines if not res.get(l.split(' ', 1)[0], '').startswith('OK')]
+    if still and fuel < 13 and len(still) <= 400:
+        d3 = os.path.join(outdir, 'deepest')
+        os.makedirs(d3, exist_ok=True)
+        with open(os.path.join(d3, 'cases.txt'), 'w') as f:
+            f.write('\n'.join(re.sub(r' fuel=\d+ ', ' fuel=13 ', l) for l in still) + '\n')
+        res3, _, _ = run_checker(root, d3, timeout)
+        for k, v in res3.items():
+            if v.startswith('OK'):
+                res[k] = v
     return res
 
 
